@@ -44,6 +44,8 @@ class Rd:
             n += (b & 127) * mult
             mult *= 128
             if not b & 128:
+                if k > 0 and n < 128 ** k:
+                    raise Bad('variable byte integer not minimally encoded')      # [MQTT-1.5.5-1]
                 return n
         raise Bad('varint > 4 bytes')
 
